@@ -53,9 +53,25 @@ class SpecGen:
                              5e-324, 1e22, 0.1 + 0.2, 123456789.123456789])
         return v
 
+    def shared_const(self, real=False):
+        """One of a few constant objects used in several places."""
+        k = self.rng.choice([1, 2]) if real else self.rng.randrange(4)
+        vals = [{'c': [0.0, 1e-4]}, {'np': 'float32', 'v': 0.25},
+                {'np': 'int64', 'v': 2},
+                {'np': 'complex128', 'v': {'c': [0.5, 0.01]}}]
+        return {'shared': 'k%d' % k, 'value': vals[k]}
+
     def index(self):
         r = self.rng
         c = r.random()
+        if c < 0.06 and not self.plain_only and self.npscalars:
+            return {'shared': 'n0', 'value': {'c': [1.55, 0.02]}}
+        if c < 0.14 and not self.plain_only and self.npscalars:
+            # an uncertain real part plus the *same* small absorption
+            # constant wherever it is used
+            return {'fn': 'add', 'args': [
+                self.prior_expr(2),
+                {'shared': 'k0', 'value': {'c': [0.0, 1e-4]}}]}
         if c < 0.6:
             return self.num(1.3, 1.8)
         if c < 0.8:
@@ -118,7 +134,11 @@ class SpecGen:
             a = self.prior_expr(depth + 1)
             if fn in ('neg', 'ufunc:sqrt', 'ufunc:exp'):
                 return {'fn': fn, 'args': [a]}
-            return {'fn': fn, 'args': [a, r.choice([2, 0.5, 3.0])]}
+            other = r.choice([2, 0.5, 3.0])
+            if not self.plain_only and self.npscalars and r.random() < 0.3:
+                other = self.shared_const(real=fn not in ('add', 'sub',
+                                                         'ufunc:add'))
+            return {'fn': fn, 'args': [a, other]}
         return C('Gaussian', mu=0.5, sd=0.1, name=name)
 
     def prior_expr(self, depth):
